@@ -29,6 +29,13 @@ def parse_snapshot(tok):
     return [tuple(int(x) for x in e.split(":")) for e in body.split(";")]
 
 
+def canon_snapshot(snap):
+    """the table as the model prints it: sorted by identity (= creation order = the model's
+    insertion order), so that a change of the hash table's iteration order alone is not a
+    difference"""
+    return "B[" + ";".join("%d:%d:%d:%d:%d" % e for e in sorted(snap)) + "]"
+
+
 def windows(tokens):
     """split at the B[...] tokens: [(events, snapshot, btoken, wtoken)]"""
     out = []
@@ -116,7 +123,7 @@ def translate(tokens, timeout, maxidle):
             ops.append(pending)
         if snap is not None:
             ops.append("B")
-            expect.append(btok)
+            expect.append(canon_snapshot(snap))
         info.append((evs, snap, wtok))
     return "se %d %d %s" % (timeout, maxidle, " ".join(ops)), expect, info
 
@@ -190,13 +197,17 @@ def oracles(tokens, timeout, maxidle, stats):
                                     % (sid, f[2], o_sid)))
                 # eviction rule, both directions
                 if maxidle > 0 and len(pre_idle) >= maxidle:
-                    want = min(pre_idle, key=lambda x: (last.get(x, 0), pre_idle.index(x)))
+                    oldest = min(last.get(x, 0) for x in pre_idle)
                     if evicted is None:
                         bad.append(("no-evict", "%d idle sessions >= max_idle_sessions %d but none was "
                                     "reclaimed when peer %s arrived" % (len(pre_idle), maxidle, last_x)))
-                    elif evicted != want:
-                        bad.append(("evict-wrong", "idle limit reached: session %d reclaimed, the oldest "
-                                    "idle one is %d" % (evicted, want)))
+                    elif evicted not in pre_idle:
+                        bad.append(("evict-wrong", "idle limit reached: session %d reclaimed although "
+                                    "it is not idle" % evicted))
+                    elif last.get(evicted, 0) != oldest:
+                        bad.append(("evict-wrong", "idle limit reached: session %d (last activity %d) "
+                                    "reclaimed, an older idle one exists (last activity %d)"
+                                    % (evicted, last.get(evicted, 0), oldest)))
                 elif evicted is not None:
                     bad.append(("evict-early", "session %d reclaimed on arrival of peer %s with %d idle "
                                 "sessions, max_idle_sessions %d" % (evicted, last_x, len(pre_idle), maxidle)))
